@@ -141,6 +141,14 @@ func buildHistories(cs *lab.Case) [][]proto.Step {
 	return out
 }
 
+// effEntry is the rule whose result a step observes: the second call's when there is one.
+func effEntry(s proto.Step) int {
+	if s.Again != nil && *s.Again >= 0 {
+		return *s.Again
+	}
+	return s.Entry
+}
+
 type histEval struct {
 	what string
 	mode proto.Mode
@@ -169,10 +177,10 @@ func evalHistories(c *drv.Ctx, cases []*lab.Case, hists [][][]proto.Step, modes 
 		}
 		for _, h := range hists[ci] {
 			for _, s := range h {
-				k := key{ci, s.Entry, string(s.Input)}
+				k := key{ci, effEntry(s), string(s.Input)}
 				if _, ok := fresh[k]; !ok {
 					fresh[k] = len(reqs)
-					reqs = append(reqs, proto.Req{Kind: "run", Pkg: name, Entry: s.Entry, Input: s.Input, Modes: []proto.Mode{{}}})
+					reqs = append(reqs, proto.Req{Kind: "run", Pkg: name, Entry: effEntry(s), Input: s.Input, Modes: []proto.Mode{{}}})
 				}
 			}
 		}
@@ -215,7 +223,7 @@ func evalHistories(c *drv.Ctx, cases []*lab.Case, hists [][][]proto.Step, modes 
 			if si >= len(o.Resp.Obs) {
 				break
 			}
-			fo := outs[fresh[key{ref.ci, s.Entry, string(s.Input)}]]
+			fo := outs[fresh[key{ref.ci, effEntry(s), string(s.Input)}]]
 			if len(fo.Resp.Obs) == 0 {
 				continue
 			}
@@ -223,7 +231,13 @@ func evalHistories(c *drv.Ctx, cases []*lab.Case, hists [][][]proto.Step, modes 
 			if stats {
 				c.Stats.Eval()
 			}
-			if d := obsDiff(a, b); d != "" && res[ref.ci][ref.hi] == nil {
+			d := obsDiff(a, b)
+			if s.Again != nil && *s.Again >= 0 && !a.OK && !b.OK && a.Panic == "" {
+				// a second Parse without Reset keeps the furthest token of the first attempt:
+				// only verdict, tokens, trace and tree are comparable with a fresh parse
+				d = ""
+			}
+			if d != "" && res[ref.ci][ref.hi] == nil {
 				res[ref.ci][ref.hi] = &histEval{what: fmt.Sprintf("step %d (entry %s, input %s) on a reused instance [%s] differs from a fresh parser: %s", si, cases[ref.ci].G.Rules[s.Entry].Name, clipQ(string(s.Input)), modeKey(m), clip(d, 600)), mode: m, step: si}
 			}
 		}
@@ -427,7 +441,11 @@ func shrinkHist(c *drv.Ctx, prop string, cs *lab.Case, h []proto.Step, ev *histE
 	cur.Grammar = lab.Render(cur.Case, "g", false)
 	var steps []string
 	for _, s := range cur.Steps {
-		steps = append(steps, fmt.Sprintf("%s(%s)", cur.Case.G.Rules[s.Entry].Name, clipQ(string(s.Input))))
+		st := fmt.Sprintf("%s(%s)", cur.Case.G.Rules[s.Entry].Name, clipQ(string(s.Input)))
+		if s.Again != nil && *s.Again >= 0 {
+			st += fmt.Sprintf(" then Parse(%s) without Reset", cur.Case.G.Rules[*s.Again].Name)
+		}
+		steps = append(steps, st)
 	}
 	desc := fmt.Sprintf("%s\n--- minimal history [%s]: %s ---\n%s", what, modeKey(cur.Mode), strings.Join(steps, "; "), strings.TrimSpace(cur.Case.G.String()))
 	return &drv.Violation{Property: prop, Kind: "lab-hist", What: desc, Case: cur}
